@@ -150,9 +150,9 @@ fn text_matches(v: &Value, shown: &str) -> bool {
 impl Monitor for C17 {
     fn id(&self) -> &'static str { "C17" }
     fn rule(&self) -> &'static str {
-        "kind=print: OutputPrinter::print is called with ResultRows the harness holds (1-4 results of 0-5 rows, 1-6 distinctly named columns, every value type, hostile text, 64-bit extremes, arrays of 0-200 elements) in json / csv / text with single_result on and off; kind=e2e: FileExecutor over generated input in all three formats, records paired with the engine's own rows. Oracle: #non-blank records = #rows in order; JSON keys = column names in order and values recover the row exactly; CSV one header first then one field per column; text `name: value` pairs. Non-trivial = >= 2 columns and a value needing escaping or an extreme number; distinct by case hash"
+        "kind=print: OutputPrinter::print is called with ResultRows the harness holds (1-4 results of 0-5 rows, 1-6 distinctly named columns, every value type, hostile text, 64-bit extremes, intervals with fractions of a second of either sign, arrays of 0-200 elements) in json / csv / text with single_result on and off; kind=e2e: FileExecutor over generated input in all three formats, records paired with the engine's own rows. Oracle: #non-blank records = #rows in order; JSON keys = column names in order and values recover the row exactly; CSV one header first then one field per column; text `name: value` pairs. Non-trivial = >= 2 columns and a value needing escaping or an extreme number; distinct by case hash"
     }
-    fn assumptions(&self) -> Vec<String> { vec!["serde_json's decoder is trusted for reading printed records".into(), "timestamps with a year in 0..=9999 and non-negative intervals are compared with the harness' own rendering `YYYY-MM-DD hh:mm:ss.mmm` / `hh:mm:ss.mmm`, other timestamps / intervals with the value's own text form".into()] }
+    fn assumptions(&self) -> Vec<String> { vec!["serde_json's decoder is trusted for reading printed records".into(), "timestamps with a year in 0..=9999 and non-negative intervals are compared with the harness' own rendering `YYYY-MM-DD hh:mm:ss.mmm` / `hh:mm:ss.mmm`, other timestamps / intervals with the value's own text form; a negative interval must not print as the text of its positive counterpart".into()] }
     fn sizes(&self, tier: Tier) -> Sizes { match tier { Tier::Quick => Sizes { cases: 20_000, min_nontrivial: 3_000 }, Tier::Thorough => Sizes { cases: 1_000_000, min_nontrivial: 100_000 } } }
 
     fn generate(&self, rng: &mut Rng, _tier: Tier) -> J {
